@@ -281,6 +281,9 @@ func (r *run) jwtHS() {
 			`{"alg":"HS256","typ":"JWT"}`,
 			`{"ALG":"HS256","Typ":"JWT","KID":` + string(mustJSON(s.kid)) + `}`,
 			`{"alg":"none","typ":"JWT"}`,
+			`{"alg":"HS256","typ":"jwt","kid":` + string(mustJSON(s.kid)) + `}`,
+			`{"alg":"HS256","typ":"","kid":` + string(mustJSON(s.kid)) + `}`,
+			`{"alg":"hs256","typ":"JWT","kid":` + string(mustJSON(s.kid)) + `}`,
 			`[1]`, `{`, `null`, `"x"`,
 		} {
 			txt := b64([]byte(hv)) + "." + parts[1]
